@@ -401,6 +401,67 @@ func (e *isoEnv) run(r *ev.Run) {
 				}
 				ev.Yield()
 			}
+			// ... and the notification paths, where the cache itself builds the models the handlers get (the old model of an
+			// update event is the object the cache held until then): v1 (full new row) and update2 (difference of the scalars)
+			rowOf := func(m model.Model) ovsdb.Row {
+				info, _ := e.dbm.NewModelInfo(m)
+				row, rerr := e.dbm.Mapper.NewRow(info)
+				if rerr != nil {
+					panic(rerr)
+				}
+				delete(row, "_uuid")
+				var wire ovsdb.Row
+				if jerr := jsonRoundTrip(row, &wire); jerr != nil {
+					panic(jerr)
+				}
+				return wire
+			}
+			expect := 3
+			waitEvents := func(n int) {
+				for i := 0; i < 2000; i++ {
+					h.mu.Lock()
+					k := len(h.events)
+					h.mu.Unlock()
+					if k >= n {
+						return
+					}
+					ev.Yield()
+				}
+			}
+			waitEvents(expect)
+			r1, r2 := rowOf(e.rich(uuid, 1)), rowOf(e.rich(uuid, 2))
+			for cn := range r2 {
+				if cs := e.dbm.Schema.Table(e.table).Column(cn); cs != nil && !cs.Mutable() {
+					r2[cn] = r1[cn] // a notification never changes an immutable column
+				}
+			}
+			if perr := tc.Populate(ovsdb.TableUpdates{e.table: {uuid: &ovsdb.RowUpdate{Old: &r1, New: &r2}}}); perr != nil {
+				r.Note(fmt.Sprintf("[%s] Populate (v1 modify) refused: %v", e.kind, perr))
+			} else {
+				expect++
+			}
+			waitEvents(expect)
+			diff := ovsdb.Row{}
+			for cn, v := range r1 {
+				cs := e.dbm.Schema.Table(e.table).Column(cn)
+				if cs != nil && cs.Type != ovsdb.TypeSet && cs.Type != ovsdb.TypeMap && !reflect.DeepEqual(v, r2[cn]) {
+					diff[cn] = v
+				}
+			}
+			if len(diff) > 0 {
+				if perr := tc.Populate2(ovsdb.TableUpdates2{e.table: {uuid: &ovsdb.RowUpdate2{Modify: &diff}}}); perr != nil {
+					r.Note(fmt.Sprintf("[%s] Populate2 (modify) refused: %v", e.kind, perr))
+				} else {
+					expect++
+				}
+				waitEvents(expect)
+			}
+			r.Add("notification_path_events", int64(expect-3))
+			// what the readers return now is the reference for the comparison below
+			if ref := readers[names[0]](); ref != nil {
+				want = canon.Model(ref)
+				pristine = model.Clone(ref)
+			}
 			close(stop)
 			<-done
 			h.mu.Lock()
